@@ -218,13 +218,30 @@ def gen_universe(rnd, uid):
     # most_specific mode: two files sharing a character-identical match text (and let / field names) with different
     # priorities, values and tags — what a memo keyed by expression text or by name would confuse across files
     shared = f'contains("{k}") and n > 0'
-    files['P1'] = {'suffix': '.rules', 'mode': 'most_specific', 'text':
-                   f'[P1 {k.title()}]\nlet: n = amount * 2\nmatch: {shared}\ncategory: Prio-P1\nsubcategory: one\n'
-                   f'merchant: P1 {k}\ntags: p1, {{field.kind}}\nfield: up = uppercase(description)\npriority: 90\n'}
-    files['P2'] = {'suffix': '.rules', 'mode': 'most_specific', 'text':
-                   f'[P2 any {k.title()}]\nlet: n = amount * 3\nmatch: {shared}\ncategory: Low-P2\nsubcategory: two\n'
-                   f'merchant: P2 {k}\ntags: p2, {{source}}\nfield: up = lowercase(description)\npriority: 10\n\n'
-                   f'[P2 spec {k.title()}]\nmatch: contains("{k}5")\ncategory: Spec-P2\n'}
+    if uid < 3:
+      files['P1'] = {'suffix': '.rules', 'mode': 'most_specific', 'text':
+                     f'[P1 {k.title()}]\nlet: n = amount * 2\nmatch: {shared}\ncategory: Prio-P1\nsubcategory: one\n'
+                     f'merchant: P1 {k}\ntags: p1, {{field.kind}}\nfield: up = uppercase(description)\npriority: 90\n'}
+      files['P2'] = {'suffix': '.rules', 'mode': 'most_specific', 'text':
+                     f'[P2 any {k.title()}]\nlet: n = amount * 3\nmatch: {shared}\ncategory: Low-P2\nsubcategory: two\n'
+                     f'merchant: P2 {k}\ntags: p2, {{source}}\nfield: up = lowercase(description)\npriority: 10\n\n'
+                     f'[P2 spec {k.title()}]\nmatch: contains("{k}5")\ncategory: Spec-P2\n'}
+    # the same (text, pattern) scored under different trailing arguments: fuzzy() with a lenient, then a strict
+    # threshold on texts holding a near-miss before the exact occurrence; F1/F2 are rule files, F3 expression-style CSV
+    full = uid < 3          # the text-independent probe families run in the first universes only (they always run)
+    if full:
+      txns.append({'description': 'AMAZN MKTP AMAZON.COM', 'amount': 20.0, 'date': '2025-01-15', 'field': {'vendor': 'STARBUCK STARBUCKS'},
+                   'source': 'Chase', 'location': None})
+      txns.append({'description': 'STARBUCK STARBUCKS 0123', 'amount': 6.0, 'date': '2025-01-15', 'field': {'vendor': 'AMAZN AMAZON'},
+                   'source': 'Chase', 'location': None})
+      files['F1'] = {'suffix': '.rules', 'text': '[F1 Amazon]\nmatch: fuzzy("AMAZON")\ncategory: Lenient-F1\n\n'
+                     '[F1 Sbux]\nmatch: fuzzy("STARBUCKS", 0.85)\ncategory: Lenient-F1\nsubcategory: coffee\n\n'
+                     '[F1 Vendor]\nmatch: fuzzy(field.vendor, "STARBUCKS")\ntags: vendorish\n'}
+      files['F2'] = {'suffix': '.rules', 'text': '[F2 Amazon]\nmatch: fuzzy("AMAZON", 0.95)\ncategory: Strict-F2\n\n'
+                     '[F2 Sbux]\nmatch: fuzzy("STARBUCKS", 0.97)\ncategory: Strict-F2\nsubcategory: coffee\n\n'
+                     '[F2 Vendor]\nmatch: fuzzy(field.vendor, "STARBUCKS", 0.95)\ntags: vendor\n'}
+      files['F3'] = {'suffix': '.csv', 'text': 'Pattern,Merchant,Category,Subcategory,Tags\n'
+                     '"fuzzy(""AMAZON"", 0.95)",Amazon F3,Strict-F3,s,\n"fuzzy(""STARBUCKS"", 0.97)",Sbux F3,Strict-F3,c,\n'}
     # the SAME path rewritten with another rule set: A2 = A with different transforms and one more tag-only rule;
     # Am = A's text loaded in most_specific mode; M = the file deleted
     t1 = 'field.description = regex_replace(field.description, "^APLPAY\\s+", "")'
@@ -244,7 +261,11 @@ def gen_universe(rnd, uid):
         if rnd.random() < 0.3:
             exprs.append(e)
     fexprs = ['sum(payments) > 10 and "x" in tags', 'count(payments) > 1', 'amount > 100']
-    return {'id': uid, 'files': files, 'txns': txns, 'exprs': exprs, 'filter_exprs': fexprs, 'twins': twins, 'leak': leak, 'partial': partial,
+    def ix(prefix):
+        return max([j for j, t in enumerate(txns) if t['description'].startswith(prefix)], default=None)
+    tx = {'tw1': ix(f'{k}5 MKTP'), 'tw2': ix(f'{k} x{k.lower()}'), 'nofield': ix(f'{k} NOFIELD'), 'wire': ix(f'APLPAY {k} WIRE'),
+          'ord_a1': ix(f'{k} ORDER A1'), 'ord_b2': ix(f'{k} ORDER B2'), 'fz1': ix('AMAZN MKTP'), 'fz2': ix('STARBUCK STARBUCKS')}
+    return {'id': uid, 'full': uid < 3, 'tx': tx, 'files': files, 'txns': txns, 'exprs': exprs, 'filter_exprs': fexprs, 'twins': twins, 'leak': leak, 'partial': partial,
             'order_expr': order_expr,
             'data_sources': {'orders': [{'item': 'Book', 'amount': 50.0, 'ref': 'A1', 'date': {'__date__': '2025-05-12'}},
                                         {'item': 'Pen', 'amount': 5.0, 'ref': 'B2', 'date': '06/15/2025'}]}}
@@ -289,7 +310,7 @@ def twin_histories(rnd, uni, n):
         a, b = rnd.choice(uni['twins'])
         if rnd.random() < 0.5:
             a, b = b, a
-        t = rnd.choice([nt - 5, nt - 6])
+        t = rnd.choice([uni['tx']['tw1'], uni['tx']['tw2']])
         h = [{'op': 'eval', 'src': a, 'txn': t}, {'op': 'eval', 'src': rnd.choice([b, b, ' ' + b, b + ' ']), 'txn': t}]
         if rnd.random() < 0.3:
             h.insert(0, {'op': 'load', 'file': rnd.choice(sorted(uni['files']))})
@@ -308,7 +329,7 @@ def reparse_histories(rnd, uni, n):
         if j == 0 and uni.get('leak'):
             a, b = 'A', uni['leak']
         out.append([{'op': 'engparse', 'file': a}, {'op': 'engparse', 'file': b},
-                    {'op': 'engmatch', 'txn': rnd.choice([nt - 5, nt - 6])}, {'op': 'engmatch', 'txn': rnd.randrange(nt)}])
+                    {'op': 'engmatch', 'txn': rnd.choice([uni['tx']['tw1'], uni['tx']['tw2']])}, {'op': 'engmatch', 'txn': rnd.randrange(nt)}])
     return out
 
 
@@ -317,7 +338,7 @@ def partial_variable_histories(rnd, uni, n):
     rule — through get_all_rules + normalize_merchant and through one long-lived MerchantEngine.match"""
     out = []
     nt = len(uni['txns'])
-    bad, good = nt - 4, [nt - 6, nt - 5]          # NOFIELD; the two twin transactions (field + amount present)
+    bad, good = uni['tx']['nofield'], [uni['tx']['tw1'], uni['tx']['tw2']]   # the two twin transactions have field + amount
     for j in range(n):
         if not uni.get('partial'):
             break
@@ -331,13 +352,26 @@ def partial_variable_histories(rnd, uni, n):
     return out
 
 
+ARG_VARIANTS = [
+    ('fuzzy("AMAZON", 0.5)', 'fuzzy("AMAZON", 0.95)', 'fz1'),
+    ('fuzzy("STARBUCKS")', 'fuzzy("STARBUCKS", 0.97)', 'fz2'),
+    ('fuzzy(field.vendor, "AMAZON", 0.8)', 'fuzzy(field.vendor, "AMAZON", 0.99)', 'fz2'),
+    ('substring(0, 3)', 'substring(0, 5)', 'fz1'),
+    ('split(" ", 0)', 'split(" ", 1)', 'fz1'),
+    ('regex_replace(description, "AMA", "x")', 'regex_replace(description, "AMA", "y")', 'fz1'),
+    ('extract(description, "(AMA\\w+)")', 'extract(description, "AMA\\w+ (\\w+)")', 'fz1'),
+    ('round(amount / 3, 0)', 'round(amount / 3, 2)', 'fz1'),
+    ('strip_prefix(description, "AMAZN ")', 'strip_prefix(description, "AMAZ")', 'fz1'),
+]
+
+
 def rewrite_histories(uni):
     """ALWAYS run: the same path is rewritten with another rule set (other transforms, other tag-only rules, other
     match mode, or deleted) and reloaded in the CLI's order get_transforms -> get_tag_only_rules -> get_all_rules,
     then classified; and a rule with a dynamic tag classified on transactions giving different tag values"""
     nt = len(uni['txns'])
-    wire, nofield, tw1, tw2 = nt - 3, nt - 4, nt - 6, nt - 5
-    ord_a1, ord_b2 = nt - 2, nt - 1
+    T = uni['tx']
+    wire, nofield, tw1, tw2, ord_a1, ord_b2 = T['wire'], T['nofield'], T['tw1'], T['tw2'], T['ord_a1'], T['ord_b2']
     cls = [{'op': 'classify', 'txn': t} for t in (wire, tw1)]
     out = []
     pairs = [('A', 'A2'), ('A2', 'A')] + ([('A', 'Am'), ('Am', 'A')] if 'Am' in uni['files'] else []) + \
@@ -357,6 +391,8 @@ def rewrite_histories(uni):
     out.append([{'op': 'engparse', 'file': 'A'}, {'op': 'engmatch', 'txn': ord_a1}, {'op': 'engmatch', 'txn': ord_b2}])
     out.append([{'op': 'eval', 'src': e, 'txn': ord_a1}, {'op': 'eval', 'src': e, 'txn': ord_b2}, {'op': 'eval', 'src': e, 'txn': ord_a1}])
     out.append([{'op': 'eval', 'src': e, 'txn': ord_a1}, {'op': 'load', 'file': 'A2', 'order': 'cli'}, {'op': 'classify', 'txn': ord_b2}])
+    if not uni.get('full'):
+        return out
     # most_specific: a rule text scored under P1 (priority 90), then P2 (same text, priority 10) decides between its rules
     for a, b in (('P1', 'P2'), ('P2', 'P1')):
         out.append([{'op': 'load', 'file': a, 'order': 'cli'}, {'op': 'classify', 'txn': tw1}, {'op': 'classify', 'txn': wire},
@@ -364,6 +400,18 @@ def rewrite_histories(uni):
         out.append([{'op': 'engparse', 'file': a}, {'op': 'engmatch', 'txn': tw1}, {'op': 'engparse', 'file': b},
                     {'op': 'engmatch', 'txn': tw1}, {'op': 'engmatch', 'txn': wire}])
     out.append([{'op': 'engparse', 'file': 'P1'}, {'op': 'engmatch', 'txn': tw1}, {'op': 'load', 'file': 'P2'}, {'op': 'classify', 'txn': tw1}])
+    # lenient first, then strict (and the harmless other order), on both near-miss texts
+    fz = [T['fz1'], T['fz2']]
+    for a, b in (('F1', 'F2'), ('F2', 'F1'), ('F1', 'F3')):
+        out.append([{'op': 'load', 'file': a, 'order': 'cli'}] + [{'op': 'classify', 'txn': t} for t in fz] +
+                   [{'op': 'load', 'file': b, 'order': 'cli'}] + [{'op': 'classify', 'txn': t} for t in fz])
+    out.append([{'op': 'engparse', 'file': 'F1'}] + [{'op': 'engmatch', 'txn': t} for t in fz] +
+               [{'op': 'engparse', 'file': 'F2'}] + [{'op': 'engmatch', 'txn': t} for t in fz])
+    # the same call with other trailing arguments, both orders (a memo whose key leaves an argument out)
+    for e1, e2, t in (ARG_VARIANTS if uni['id'] == 0 else ARG_VARIANTS[:2]):
+        tt = T[t]
+        out.append([{'op': 'eval', 'src': e1, 'txn': tt}, {'op': 'eval', 'src': e2, 'txn': tt}, {'op': 'eval', 'src': e1, 'txn': tt}])
+        out.append([{'op': 'eval', 'src': e2, 'txn': tt}, {'op': 'eval', 'src': e1, 'txn': tt}])
     return out
 
 
